@@ -45,7 +45,7 @@ for d in sorted(glob.glob(os.path.join(ROOT, "seeded", "*"))):
         ver = {}
     how = "; ".join(re.sub(r".*replay=/verif/replays/", "", l)[:90] for l in ver.get("check_violation_lines", [])[:2])
     what = (str(meta.get("what", "")) + " — needs: " + str(meta.get("needs", ""))).replace("|", "\\|").replace("\n", " ")
-    out.append(f"| {name} | {ver.get('property', meta.get('property', ''))} | {what[:420]} | {'yes' if ver.get('detected') else 'NO'} | "
+    out.append(f"| {name} | {ver.get('property', meta.get('property', ''))} | {what[:420]} | {'yes' if ver.get('detected') else ('superseded by fix ' + ver['superseded_by_fix'] if ver.get('superseded_by_fix') else ('STALE' if ver.get('stale') else 'NO'))} | "
                f"{'yes' if ver.get('concrete_replay') else 'no'} | {how} |")
 out.append("")
 txt = "\n".join(out)
